@@ -93,8 +93,8 @@ func checkC08(c *Ctx) {
 	ruleNoteArithmeticAs(c, dv, "AnalogNoteOn", "analogNoteTracker", false, "R8.3")
 	ruleR14analog(c, dv, "R8.6")
 	ruleDispatch(c, dv, "R8.7", false, true)
-	ruleNoDropBeforeCase(c, dv, "R8.9", []string{"AnalogKeySim"}) // and is not dropped by a filter in front of the switch
-	ruleR13(c, dv, "R8.8")                                        // only the analog note functions (and NewDevice) write the trackers: an entry removed elsewhere is a note that is never released // every axis report reaches the key-emulation switch, whatever its raw value
+	ruleNoDropBeforeCase(c, dv, "R8.9", []string{"AnalogKeySim"}, false) // and is not dropped by a filter in front of the switch
+	ruleR13(c, dv, "R8.8")                                               // only the analog note functions (and NewDevice) write the trackers: an entry removed elsewhere is a note that is never released // every axis report reaches the key-emulation switch, whatever its raw value
 	pf := newParserFacts(c)
 	if c.Require(pf.err == nil, "R8.5", "config.ParseData", fmt.Sprint(pf.err)) {
 		leaves := tomlLeaves(c)
@@ -583,8 +583,9 @@ func checkC07(c *Ctx) {
 		}
 	}
 	sort.Strings(ws)
-	ruleDispatch(c, dv, "R7.6", false, true)                   // every axis report (incl. the one that crosses the centre) reaches the side logic
-	c.importRules(configIntactRules, []string{"R3.7"}, "R7.7") // controller numbers and offsets are read from an unmodified copy of the parsed configuration
+	ruleDispatch(c, dv, "R7.6", false, true)                      // every axis report (incl. the one that crosses the centre) reaches the side logic
+	c.importRules(configIntactRules, []string{"R3.7"}, "R7.7")    // controller numbers and offsets are read from an unmodified copy of the parsed configuration
+	c.importRules(emulationReachRules, []string{"R8.9b"}, "R7.8") // every new position of a controller axis reaches the side logic
 	c.MinCount("R7.1", 5)
 	c.MinCount("R7.4", 1)
 	c.MinCount("R7.5", 2)
@@ -627,7 +628,7 @@ func ccChannelSide(dv *dev, ch *Term) string {
 // the mapping type T, finds the axis mapped and is not the repeated-value return must enter the `case T` body.  A filter in
 // front of the switch that is meant for controller traffic (the CC-learning gate) otherwise swallows the return to centre:
 // the emulated key is never released although the stick is at rest.
-func ruleNoDropBeforeCase(c *Ctx, dv *dev, rule string, typeConsts []string) {
+func ruleNoDropBeforeCase(c *Ctx, dv *dev, rule string, typeConsts []string, learningGated bool) {
 	fn := dv.fn["handleABSEvent"]
 	paths, err := absPaths(c, dv)
 	if !c.Require(err == nil, rule, "device.handleABSEvent", fmt.Sprint(err)) {
@@ -661,8 +662,11 @@ func ruleNoDropBeforeCase(c *Ctx, dv *dev, rule string, typeConsts []string) {
 			if excluded && sel != tv {
 				continue
 			}
-			unmapped, dup, entered := false, false, false
+			unmapped, dup, entered, gated := false, false, false, false
 			for _, a := range p.Atoms {
+				if learningGated && a.Taken && dv.fields["ccLearning"] != nil && a.Cond.LoadsField(dv.fields["ccLearning"]) && a.Cond.Op != "unop" {
+					gated = true // controller traffic may be filtered while CC learning is held (R7.4 decides how)
+				}
 				cnd, taken := a.Cond, a.Taken
 				for cnd.Op == "unop" && cnd.Aux == "!" {
 					cnd, taken = cnd.Args[0], !taken
@@ -680,12 +684,12 @@ func ruleNoDropBeforeCase(c *Ctx, dv *dev, rule string, typeConsts []string) {
 					}
 				}
 			}
-			if unmapped || dup {
+			if unmapped || dup || gated {
 				continue
 			}
 			n++
 			if !entered && bad == "" {
-				bad = fmt.Sprintf("an event of a mapped %s axis with a new position returns before the emulation logic (%s): the return to centre can be swallowed and the emulated key/action is never released although the stick is at rest", tc, atomsString(p))
+				bad = fmt.Sprintf("an event of a mapped %s axis with a new position returns before its case of the type switch (%s): a position is dropped on a condition other than unmapped, same-as-the-last-one or the CC-learning filter - an emulated key/action is never released although the stick is at rest, a controller or pitch-bend keeps a stale value", tc, atomsString(p))
 			}
 		}
 		if n == 0 {
@@ -702,6 +706,8 @@ func emulationReachRules(c *Ctx) {
 	if !dv.ok || dv.fn["handleABSEvent"] == nil {
 		return
 	}
-	ruleNoDropBeforeCase(c, dv, "R8.9", []string{"AnalogKeySim"})
-	ruleNoDropBeforeCase(c, dv, "R8.9a", []string{"AnalogActionSim"})
+	ruleNoDropBeforeCase(c, dv, "R8.9", []string{"AnalogKeySim"}, false)
+	ruleNoDropBeforeCase(c, dv, "R8.9a", []string{"AnalogActionSim"}, false)
+	// controller and pitch-bend axes: every new position reaches the transfer function unless CC learning filters it
+	ruleNoDropBeforeCase(c, dv, "R8.9b", []string{"AnalogCC", "AnalogPitchBend"}, true)
 }
